@@ -93,7 +93,7 @@ impl Case15 {
                     let want: Vec<Vec<usize>> = match s {
                         LayerSpec::Dense { input, output, .. } => vec![vec![*output, *input], vec![*output]],
                         LayerSpec::Conv { count, depth, fr, fc, .. } => vec![vec![*count, *depth, *fr, *fc], vec![*count, 1, 1]],
-                        LayerSpec::Flatten => vec![],
+                        LayerSpec::Flatten | LayerSpec::Gate => vec![],
                     };
                     let got: Vec<Vec<usize>> = ps.iter().map(|p| p.0.clone()).collect();
                     if got != want {
@@ -215,6 +215,7 @@ fn layer_name(s: &LayerSpec) -> &'static str {
         LayerSpec::Dense { .. } => "dense",
         LayerSpec::Conv { .. } => "conv-layer",
         LayerSpec::Flatten => "flatten",
+        LayerSpec::Gate => "user-defined-activation",
     }
 }
 
